@@ -13,7 +13,11 @@ Inductive faction :=
 | Accept (p : string)
 | Deny (p : string)
 | Reset
-| Unknown.
+| Unknown
+(* methods of Filter that no play-file line and no FilterAction reaches (DeleteAcceptPattern,
+   DeleteDenyPattern); part of the filter's interface, so part of the histories *)
+| DelAccept (p : string)
+| DelDeny (p : string).
 
 Definition pmap := alist string string.   (* key: p.String(); value: the compiled pattern, named by its source *)
 Notation pins := (@insert string string String.eqb).
@@ -30,6 +34,8 @@ Definition fapply (f : filt) (a : faction) : filt :=
   | Deny p => mkf (accepts f) (pins p p (denies f))
   | Reset => fnew
   | Unknown => f
+  | DelAccept p => mkf (prm p (accepts f)) (denies f)
+  | DelDeny p => mkf (accepts f) (prm p (denies f))
   end.
 
 Definition ffinal (acts : list faction) : filt := fold_left fapply acts fnew.
